@@ -197,6 +197,15 @@ pub fn seeds(w: usize) -> Vec<(String, Vec<u8>)> {
         ("legacy-leaf", Envelope::try_from_cbor_data(vec![0xd8, 0xc8, 0x82, 0xd8, 0x18, 0x61, 0x73, 0xa1, 0xd8, 0x18, 0x61, 0x70, 0xd8, 0xc9, 0x61, 0x6f]).unwrap()),
     ];
     for (n, e) in ex { out.push((n.to_string(), e.to_cbor_data())) }
+    // byte-string leaves whose bytes are themselves one complete CBOR item (h'01', h'6161' = "aa", h'80' = [], h'f4', h'd8c901' = 201(1)), under the
+    // current leaf tag and - as raw input, the encoder never emits it - under the deprecated tag 24, alone and inside a node
+    for (n, inner) in [("01", vec![0x01u8]), ("6161", vec![0x61, 0x61]), ("80", vec![0x80]), ("f4", vec![0xf4]), ("d8c901", vec![0xd8, 0xc9, 0x01]), ("ff", vec![0xff]), ("0102", vec![0x01, 0x02])] {
+        for tag in [201u64, 24] {
+            let leaf = V::Tag(tag, Box::new(V::Bytes(inner.clone())));
+            out.push((format!("bytes-leaf-{n}-tag{tag}"), dcbor::bytes(&V::Tag(200, Box::new(leaf.clone())))));
+            if n == "01" || n == "6161" { out.push((format!("bytes-leaf-{n}-tag{tag}-in-node"), dcbor::bytes(&V::Tag(200, Box::new(V::Array(vec![leaf.clone(), V::Map(vec![(V::Tag(201, Box::new(V::Text("p".into()))), leaf.clone())])])))))) }
+        }
+    }
     // nodes whose array head sits at a width boundary (24 and 25 elements; 256 elements in the heavier families)
     for (wn, m) in families::wide() { let cnt: usize = wn.strip_prefix("node-").and_then(|x| x.strip_suffix("-assertions")).and_then(|x| x.parse().ok()).unwrap_or(0); if cnt > 0 && (cnt <= 65 || w >= 6) && w >= 4 { if let Some(b) = m.encode() { out.push((wn, b)) } } }
     out
